@@ -83,8 +83,11 @@ def oracle_case(k, ops):
                 "text": what,
                 "replay": {"estimator": {kk: str(vv) for kk, vv in k.items()}, "mode": mode, "eps": str(ops[0]["eps"]),
                            "veto": vs, "rows": [[str(v) for v in r] for r in rows], "failing_sample": i,
-                           "how": "present rows one at a time with partial_fit; compare with scan of sorted activations"}}
+                           "how": "present rows one at a time with partial_fit, each in the same re-used (1, d) buffer; compare with scan of sorted activations"}}
 
+    # a streaming caller: every sample is handed over in the SAME pre-allocated one-row buffer, overwritten for the next
+    # one - the categories are the model's own and must not move with it ("every other category is left unchanged")
+    buf = np.empty((1, X.shape[1]), dtype=float)
     for i, x in enumerate(X):
         veto = B.Veto(est, vs["tbl"], vs["a"], vs["b"], keys) if vs else None
         has_w = hasattr(est, "W") and len(est.W) > 0
@@ -109,7 +112,8 @@ def oracle_case(k, ops):
                 exp_c, lg = expected_scan(T, M, rho0, mode, eps, vfun, inverted)
                 exp_log = lg if vs else []
         try:
-            est.partial_fit(x.reshape(1, -1), match_reset_func=veto, match_tracking=mode, epsilon=eps)
+            buf[0, :] = x
+            est.partial_fit(buf, match_reset_func=veto, match_tracking=mode, epsilon=eps)
         except Exception as e:   # totality is C04's business; stop here
             return fails
         c = int(est.labels_[-1])
